@@ -281,6 +281,7 @@ func c20Body(c *run.Ctx) {
 		}
 	}
 	snapshots := 0
+	var prevLive *pokertable.Table // private copy of the previous publication
 	fan := func(s *sim.Sim, name string, live, clone *pokertable.Table) {
 		engine = s.TE
 		if len(atts) == 0 {
@@ -408,6 +409,39 @@ func c20Body(c *run.Ctx) {
 					return
 				}
 			}
+		}
+		// a snapshot that arrives late: the previous publication of the same hand is delivered
+		// once more after the newer one (an asynchronous transport, a resync). Whatever an actor
+		// does with it, a plain observer must not get to see hidden cards, neither in what its
+		// runner is handed nor behind its adapter's accessor. The current snapshot follows again.
+		if gs != nil && prevLive != nil && prevLive.State.GameState != nil && prevLive.State.GameState.GameID == gs.GameID && snapshots%5 == 0 {
+			labels["older_snapshot_delivered_late"] = true
+			for i, x := range atts {
+				if x.kind != "observer" {
+					continue
+				}
+				x.got = nil
+				x.adapter.UpdateTableState(prevLive)
+				if ags := x.adapter.GetGameState(); ags != nil {
+					tmp := &pokertable.Table{State: &pokertable.TableState{Status: prevLive.State.Status, GameState: ags}}
+					if v := hiddenViolation(tmp); v != "" {
+						report("C20.leak."+string(prevLive.State.Status), fmt.Sprintf("non-system observer %d, through its adapter's GetGameState after an older snapshot of the hand was delivered late: %s", i, v))
+						return
+					}
+				}
+				if x.got != nil {
+					var t pokertable.Table
+					json.Unmarshal([]byte(x.got.raw), &t)
+					if v := hiddenViolation(&t); v != "" {
+						report("C20.leak."+string(prevLive.State.Status), fmt.Sprintf("non-system observer %d was handed an older snapshot delivered late, unmasked: %s", i, v))
+						return
+					}
+				}
+				x.adapter.UpdateTableState(live)
+			}
+		}
+		if cl, err := live.Clone(); err == nil {
+			prevLive = cl
 		}
 		if gs != nil {
 			dealt := false
